@@ -35,6 +35,10 @@ def ops(t):
         # the thread's own process is renamed by an exec pair emitted by that thread itself
         'exec-rename': lambda ts: [R('TRACE_DATA_EXEC', 0, (PIDOF[t], 0, 0, 0), t, ts),
                                    R('TRACE_STRING_EXEC', 0, tid=t, ts=ts + 1, data=(b'Z%d' % t).ljust(32, b'\0'))],
+        # the exec records sit inside the execve() window: the call starts in the old process and is reported in the new one
+        'execve-renaming': lambda ts: [R('BSC_execve', 1, (1, 2, 3, 0), t, ts), R('TRACE_DATA_EXEC', 0, (PIDOF[t], 0, 0, 0), t, ts + 1),
+                                       R('TRACE_STRING_EXEC', 0, tid=t, ts=ts + 2, data=(b'Z%d' % t).ljust(32, b'\0')),
+                                       R('BSC_execve', 2, (0, 0, 0, 0), t, ts + 3)],
         'image': lambda ts: [R('DYLD_uuid_map_a', 0, (0x11 * t, 0x22, 0x1000 * t, 3), t, ts)],
         'dlopen-500': lambda ts: [R('DBG_DYLD_TIMING_DLOPEN', 1, (0, 500, 1, 0), t, ts), R('DBG_DYLD_TIMING_DLOPEN', 2, (0, 0xbeef, 0, 0), t, ts + 1)],
         'announce-500': lambda ts: [R('TRACE_STRING_GLOBAL', 3, tid=t, ts=ts, data=B.global_string_chunks(0, 500, '/usr/lib/libz')[0][0])],
@@ -50,7 +54,7 @@ def ops(t):
 
 
 OPNAMES = list(ops(1))
-CORE_OPS = ['open+lookup', 'getpid', 'reply_port', 'trace-exec', 'lone-lookup', 'dyld-map-b', 'mmap', 'exec-rename']
+CORE_OPS = ['open+lookup', 'getpid', 'reply_port', 'trace-exec', 'lone-lookup', 'dyld-map-b', 'mmap', 'exec-rename', 'execve-renaming']
 
 
 def build_stream(opseq):
@@ -196,8 +200,8 @@ def judge_history(si, cfg, as_tuple, hist):
 class C13(Check):
     pid = 'C13'
     level = 'model_checking'
-    rule = ('(A) streams: all sequences of <=2 (quick) / <=3 (thorough) complete operations over 8 kinds (BSD syscall with lookup, '
-            'without, second BSD subclass, mach trap, TRACE-class record, stand-alone lookup, DYLD record, an exec pair by which a thread renames its own process) x threads {1,2} in a v2 '
+    rule = ('(A) streams: all sequences of <=2 (quick) / <=3 (thorough) complete operations over 9 kinds (BSD syscall with lookup, '
+            'without, second BSD subclass, mach trap, TRACE-class record, stand-alone lookup, DYLD record, an exec pair by which a thread renames its own process, the same pair inside an execve() window) x threads {1,2} in a v2 '
             'dump with a static thread map; x configurations tid {None,1,2} x process {None,name,pid-string,other,the name after the rename} x class list '
             '(all subsets of {1,3,4,7,0x1f} of size <=2) x BSD subclass list {[],[0x40c],[0x40d]} (list-typed; tuple-typed for the '
             'class/subclass dimension). Oracle: filtered traces == unfiltered traces restricted to those whose first event satisfies '
